@@ -921,11 +921,13 @@ def oracle_conn(h):
                 # the host raises the event in the frame that requests the state change, one frame before the state shows
                 back = 2 if p == 0 else 1
                 stretch_start_sf = frames[k - back][1]["state"]["sync_finished"] if k >= back else 0
+            if not conn and in_stretch:
+                # the stretch is over; an event counted in this frame already belongs to the next start (the host raises it
+                # in the frame that requests Connected, while the state still shows Disconnected)
+                in_stretch = False
             if in_stretch and st["sync_finished"] - stretch_start_sf > 1:
                 fails.append(("C15", "peer %d observed InitialSyncFinished %d times within one join" % (p, st["sync_finished"] - stretch_start_sf), {"frame": frames[k][1]["n"]}))
                 break
-            if not conn and in_stretch:
-                in_stretch = False
         if in_stretch and drained and frames:
             st = frames[-1][1]["state"]
             if st["sync_finished"] - stretch_start_sf != 1:
@@ -1309,6 +1311,11 @@ def oracle_promo(h):
                                   {"client_state": s["client_state"], "renet_connected": s["client_connected"], "transport": s["client_transport"]}))
             if states[host]["server_clients"] != len(states) - 1:
                 fails.append(("C07", "the new host serves %d clients, the session has %d other peers" % (states[host]["server_clients"], len(states) - 1), {}))
+            for p, s in states.items():
+                left = [t for t in s["tracker"]["tokens"]] + [[t, "asset"] for t in s["tracker"]["htokens"]]
+                if left:
+                    fails.append(("C07", "peer %d is drained but still holds a debounce entry: its next own change of that key would be taken for an echo and never sent" % p,
+                                  {"uuid": left[0][0][:8], "key": left[0][1].split("::")[-1], "count": len(left)}))
             ref = states.get(host)
             for p, s in states.items():
                 uu = [x["uuid"] for x in s["ents"]]
